@@ -681,6 +681,9 @@ static int tunnel_tun(int tun_fd, struct dnsfd *dns_fds)
 	if ((read = read_tun(tun_fd, in, sizeof(in))) <= 0)
 		return 0;
 
+	if (read < 4 + (int) sizeof(struct ip))
+		return 0;	/* no destination address in there */
+
 	/* find target ip in packet, in is padded with 4 bytes TUN header */
 	header = (struct ip*) (in + 4);
 	userid = find_user_by_ip(header->ip_dst.s_addr);
@@ -1904,8 +1907,11 @@ handle_full_packet(int tun_fd, struct dnsfd *dns_fds, int userid)
 	if (ret == Z_OK) {
 		struct ip *hdr;
 
+		/* a packet too short for an IP header has no destination */
 		hdr = (struct ip*) (out + 4);
-		touser = find_user_by_ip(hdr->ip_dst.s_addr);
+		touser = -1;
+		if (outlen >= 4 + sizeof(struct ip))
+			touser = find_user_by_ip(hdr->ip_dst.s_addr);
 
 		if (touser == -1) {
 			/* send the uncompressed packet to tun device */
